@@ -103,7 +103,7 @@ class Ref:
         self.name = None  # the name textX sees (dots without whitespace)
 
     def sid(self):
-        i = f"[{self.idx}]" if self.attr == "refs" else ""
+        i = f"[{self.idx}]" if self.idx is not None else ""
         return f"{os.path.basename(self.owner.file)}:{self.owner.name}.{self.attr}{i}"
 
 
